@@ -349,7 +349,7 @@ def execute(ck, exe, model, cfgs, tmpd, tag):
     cf = os.path.join(tmpd, tag + "_cases.txt")
     open(cf, "w").write("\n".join(run_line(c) for c in cfgs) + "\n")
     tf = os.path.join(tmpd, tag + "_trace.txt")
-    rc, out, err = sh([exe, cf], timeout=1500)
+    rc, out, err = sh([exe, cf], timeout=1500, env={"OMP_NUM_THREADS": "1", "OPENBLAS_NUM_THREADS": "1"})
     open(tf, "w").write(out)
     runs = parse_trace(out)
     byid = {r["id"]: r for r in runs}
@@ -437,8 +437,8 @@ def main():
                 for l in open(os.path.join(cdir, f)).read().split("\n"):
                     if l.startswith("RUN "):
                         c = parse_run_line(l); c["id"] = "corpus_" + c["id"]; cfgs.append(c)
-        for k in range(1500 if big else 260): cfgs.append(gen_run(ck.rng, "m%d" % k, big))
-        for k in range(60 if big else 12): cfgs.append(gen_run(ck.rng, "x%d" % k, big, extreme=True))
+        for k in range(4000 if big else 600): cfgs.append(gen_run(ck.rng, "m%d" % k, big))
+        for k in range(200 if big else 20): cfgs.append(gen_run(ck.rng, "x%d" % k, big, extreme=True))
     res = []
     for p in range(0, len(cfgs), 100):
         res += execute(ck, exe, model, cfgs[p:p + 100], tmpd, "b%d" % (p // 100))
